@@ -64,6 +64,8 @@ pub(crate) struct Operator<'o> {
     inner: IoUring,
     entering: AtomicBool,
     backlog: Mutex<VecDeque<&'o Entry>>,
+    // the submission queue tolerates one producer at a time, callers come from any thread
+    sq_lock: Mutex<()>,
 }
 
 impl Operator<'_> {
@@ -76,11 +78,16 @@ impl Operator<'_> {
                 inner,
                 entering: AtomicBool::new(false),
                 backlog: Mutex::new(VecDeque::new()),
+                sq_lock: Mutex::new(()),
             })
     }
 
     fn push_sq(&self, entry: Entry) -> std::io::Result<()> {
         let entry = Box::leak(Box::new(entry));
+        let _guard = self
+            .sq_lock
+            .lock()
+            .unwrap_or_else(std::sync::PoisonError::into_inner);
         if unsafe { self.inner.submission_shared().push(entry).is_err() } {
             self.backlog
                 .lock()
@@ -122,6 +129,10 @@ impl Operator<'_> {
     ) -> std::io::Result<(usize, CompletionQueue<'_>, Option<Duration>)> {
         let start_time = Instant::now();
         self.timeout_add(crate::common::constants::IO_URING_TIMEOUT_USERDATA, timeout)?;
+        let _guard = self
+            .sq_lock
+            .lock()
+            .unwrap_or_else(std::sync::PoisonError::into_inner);
         let mut cq = unsafe { self.inner.completion_shared() };
         // when submit queue is empty, submit_and_wait will block
         let count = match self.inner.submit_and_wait(want) {
